@@ -24,6 +24,10 @@ pub enum Format {
     Xml,
     XmlUnknown,
     Attr,
+    /// `NoReflection` on both sides: names and types exactly as in the text.
+    XmlNoReflection,
+    /// `ErrorOnUnknown` on both sides.
+    XmlStrict,
 }
 
 impl Format {
@@ -31,7 +35,7 @@ impl Format {
         matches!(self, Format::BinLz4 | Format::BinNone | Format::BinZstd)
     }
     pub fn is_xml(self) -> bool {
-        matches!(self, Format::Xml | Format::XmlUnknown)
+        matches!(self, Format::Xml | Format::XmlUnknown | Format::XmlNoReflection | Format::XmlStrict)
     }
     pub fn tag(self) -> &'static str {
         match self {
@@ -41,6 +45,8 @@ impl Format {
             Format::Xml => "xml",
             Format::XmlUnknown => "xml/unknown",
             Format::Attr => "attributes",
+            Format::XmlNoReflection => "xml/noreflection",
+            Format::XmlStrict => "xml/strict",
         }
     }
 }
@@ -365,6 +371,10 @@ fn xml_decode_options(format: Format) -> rbx_xml::DecodeOptions<'static> {
     match format {
         Format::XmlUnknown => rbx_xml::DecodeOptions::new()
             .property_behavior(rbx_xml::DecodePropertyBehavior::ReadUnknown),
+        Format::XmlNoReflection => rbx_xml::DecodeOptions::new()
+            .property_behavior(rbx_xml::DecodePropertyBehavior::NoReflection),
+        Format::XmlStrict => rbx_xml::DecodeOptions::new()
+            .property_behavior(rbx_xml::DecodePropertyBehavior::ErrorOnUnknown),
         _ => rbx_xml::DecodeOptions::new(),
     }
 }
@@ -373,6 +383,10 @@ fn xml_encode_options(format: Format) -> rbx_xml::EncodeOptions<'static> {
     match format {
         Format::XmlUnknown => rbx_xml::EncodeOptions::new()
             .property_behavior(rbx_xml::EncodePropertyBehavior::WriteUnknown),
+        Format::XmlNoReflection => rbx_xml::EncodeOptions::new()
+            .property_behavior(rbx_xml::EncodePropertyBehavior::NoReflection),
+        Format::XmlStrict => rbx_xml::EncodeOptions::new()
+            .property_behavior(rbx_xml::EncodePropertyBehavior::ErrorOnUnknown),
         _ => rbx_xml::EncodeOptions::new(),
     }
 }
@@ -400,9 +414,11 @@ pub fn decode_raw<R: Read>(format: Format, reader: R) -> Result<Decoded, String>
         Format::BinLz4 | Format::BinNone | Format::BinZstd => rbx_binary::from_reader(reader)
             .map(Decoded::Dom)
             .map_err(|e| e.to_string()),
-        Format::Xml | Format::XmlUnknown => rbx_xml::from_reader(reader, xml_decode_options(format))
-            .map(Decoded::Dom)
-            .map_err(|e| e.to_string()),
+        Format::Xml | Format::XmlUnknown | Format::XmlNoReflection | Format::XmlStrict => {
+            rbx_xml::from_reader(reader, xml_decode_options(format))
+                .map(Decoded::Dom)
+                .map_err(|e| e.to_string())
+        }
         Format::Attr => Attributes::from_reader(reader)
             .map(Decoded::Attrs)
             .map_err(|e| e.to_string()),
@@ -427,7 +443,7 @@ pub fn encode_raw<W: Write>(format: Format, src: &Source, writer: W) -> Result<(
                 .serialize(writer, dom, roots)
                 .map_err(|e| e.to_string())
         }
-        (Format::Xml | Format::XmlUnknown, Source::Dom(dom, roots)) => {
+        (f, Source::Dom(dom, roots)) if f.is_xml() => {
             rbx_xml::to_writer(writer, dom, roots, xml_encode_options(format)).map_err(|e| e.to_string())
         }
         (Format::Attr, Source::Attrs(a)) => a.to_writer(writer).map_err(|e| e.to_string()),
@@ -741,9 +757,30 @@ const XML_TEXTS: &[&str] = &[
     "null", "RBX0", "RBXFFFFFFFF", "1 2 3", "0 0 0 0 0 0", "1,2", "&#0;", "&bogus;", "-0", "4294967296", "1.5", "rbxasset://x",
     "00000000000000000000000000000000", "zzzzzzzzzzzzzzzzzzzzzzzzzzzzzzzz", "QUI", "QQ", "AAA", "AA", "QUJDRA", "QUJDREU", "AAAAAA==", "AAAAAAA=", "1e400", "nan", "+INF", "0x", "-", ".", "1.2.3", "+-1",
     "\u{661}\u{662}\u{663}", "1 ", " 1", "1\n", "QUJD QUJD", "QUJD\nQUJD", "=QUJD", "QUJ", "Q", "////", "1e-400", "-2147483649", "2147483648",
+    "1.#INF", "-1.#INF", "1.#QNAN", "-1.#IND", "1.#SNAN", "1.#J", "#", "1e", "1E5", "0.", ".5", "1_000", "١", "-nan", "infinity", "-Infinity", "+1", "1.0e+38", "3.5e38", "1e-46",
     "18446744073709551616", "-9223372036854775809", "0.1e", "true false", "rbxasset://\u{0}", "ffffffffffffffffffffffffffffffff", "0000000000000000000000000000000g",
     "123456789012345678901234567890123456789012345678901234567890123456789012345678901234567890123456789012345678901234567890", "AAAAAAAAAAAAAAAAAAAAAAAAAAAAAAAAAAAAAAAAAAAAAAAAAAAAAAAAAAAAAAAAAAAAAAAAAAAAAAAA",
 ];
+
+/// A dictionary token, whole or cut short at any byte, optionally followed by a
+/// multi-byte character (so that fixed-width slicing of the text ends inside it).
+fn xml_text_variant(arg: u32) -> Vec<u8> {
+    let tok = XML_TEXTS[arg as usize % XML_TEXTS.len()].as_bytes();
+    let v = (arg as usize / XML_TEXTS.len()) % 8;
+    let cut_arg = arg as usize / (XML_TEXTS.len() * 8);
+    let mut out = match v {
+        0..=3 => tok.to_vec(),
+        _ if tok.is_empty() => Vec::new(),
+        _ => tok[..cut_arg % (tok.len() + 1)].to_vec(),
+    };
+    if v == 3 || v == 7 {
+        out.extend_from_slice("\u{e9}".as_bytes());
+    }
+    if v == 6 {
+        out.extend_from_slice(b" 1");
+    }
+    out
+}
 
 #[derive(Clone, Debug)]
 struct XmlTag {
@@ -820,7 +857,18 @@ fn apply_xml_edit(file: &mut Vec<u8>, op: u8, which: u32, arg: u32) -> bool {
     if opens.is_empty() {
         return false;
     }
-    let k = opens[which as usize % opens.len()];
+    let mut k = opens[which as usize % opens.len()];
+    if op % 13 == 3 {
+        // Text replacement is aimed at leaf elements (the ones that carry a value).
+        let leaves: Vec<usize> = opens
+            .iter()
+            .copied()
+            .filter(|&i| !tags[i].self_closing && tags.get(i + 1).map_or(false, |n| n.closing && n.name == tags[i].name))
+            .collect();
+        if !leaves.is_empty() {
+            k = leaves[which as usize % leaves.len()];
+        }
+    }
     let t = tags[k].clone();
     let close = matching_close(&tags, k);
     match op % 13 {
@@ -849,8 +897,8 @@ fn apply_xml_edit(file: &mut Vec<u8>, op: u8, which: u32, arg: u32) -> bool {
         3 => {
             // replace the text that follows the opening tag
             let text_end = file[t.end..].iter().position(|&b| b == b'<').map(|p| t.end + p).unwrap_or(file.len());
-            let new = XML_TEXTS[arg as usize % XML_TEXTS.len()];
-            file.splice(t.end..text_end, new.bytes());
+            let new = xml_text_variant(arg);
+            file.splice(t.end..text_end, new);
         }
         4 | 5 | 6 => {
             // attributes: name="value"
@@ -992,13 +1040,15 @@ impl IoSim {
     }
 
     fn gen_format(&self, r: &mut Rng) -> Format {
-        match r.weighted(&[20, 30, 12, 20, 10, 8]) {
+        match r.weighted(&[20, 30, 12, 16, 8, 8, 4, 3]) {
             0 => Format::BinLz4,
             1 => Format::BinNone,
             2 => Format::BinZstd,
             3 => Format::Xml,
             4 => Format::XmlUnknown,
-            _ => Format::Attr,
+            5 => Format::Attr,
+            6 => Format::XmlNoReflection,
+            _ => Format::XmlStrict,
         }
     }
 
@@ -1148,7 +1198,11 @@ impl IoSim {
                 snap: r.chance(3, 4),
             },
             9 => Edit::RandomTail { keep: pos, len: r.range(0, 64) as u32, seed: r.next_u64() >> 16 },
-            10 => Edit::Xml { op: r.below(13) as u8, which: r.next_u64() as u32, arg: r.next_u64() as u32 },
+            10 => Edit::Xml {
+                op: r.weighted(&[4, 4, 4, 16, 4, 5, 4, 4, 4, 4, 4, 5, 5]) as u8,
+                which: r.next_u64() as u32,
+                arg: r.next_u64() as u32,
+            },
             11 => Edit::PropType { which: r.next_u64() as u32, ty: r.below(0x24) as u8 },
             12 => Edit::PropRename { which: r.next_u64() as u32, name: r.below(PROP_NAMES.len() as u64) as u8 },
             13 => Edit::InstRename { which: r.next_u64() as u32, class: r.below(CLASS_NAMES.len() as u64) as u8 },
